@@ -33,7 +33,7 @@ use rs_matter::dm::networks::wireless::NoopWirelessNetCtl;
 use rs_matter::dm::{Async, Dataver, EpClMatcher};
 use rs_matter::im::{AttrDataTag, AttrPath, GenericPath};
 use rs_matter::im::client::{SubscribeOutcome, TxOutcome};
-use rs_matter::persist::{KvBlobStore, BASIC_INFO_KEY, PERSISTENT_SUBSCRIPTIONS_START, PERSISTENT_SUBSCRIPTIONS_END};
+use rs_matter::persist::{PERSISTENT_SUBSCRIPTIONS_END, PERSISTENT_SUBSCRIPTIONS_START};
 use rs_matter::tlv::TLVElement;
 use rs_matter::dm::networks::wireless::WifiNetworks;
 use rs_matter::dm::{
@@ -291,6 +291,7 @@ fn run_boot(h: &HCtx, ops: &[String], start: usize, restarted: bool, lines: &Ref
                 _ => "rej".to_string(),
             };
             let op = ops[start - 1].clone();
+            Timer::after(Duration::from_millis(5)).await;
             lines.borrow_mut().push((op, format!("{} | {}", st, dump())));
         }
         let mut next_local_sess: u16 = 1;
@@ -607,15 +608,8 @@ fn run_boot(h: &HCtx, ops: &[String], start: usize, restarted: bool, lines: &Ref
                                 .await
                             }
                             "gkm" => {
-                                // GroupKeyManagement (0x3F) GroupKeyMap (0): the entries there are + (group <v> -> key set 1)
-                                let v = num(&w, 2) as u16;
-                                let sfab = mode.fab_idx();
-                                let mut ids: Vec<u16> = device.with_state(|state| {
-                                    let p = state.verif_parts();
-                                    let x = NonZeroU8::new(sfab).and_then(|f| p.fabrics.get(f)).map(|f| f.groups().key_map_iter().map(|e| e.group_id).collect()).unwrap_or_default();
-                                    x
-                                });
-                                ids.push(v);
+                                // GroupKeyManagement (0x3F) GroupKeyMap (0): the list [(group <v> -> key set 1)]
+                                let ids: Vec<u16> = vec![num(&w, 2) as u16];
                                 write_attr!(exchange, ROOT_ENDPOINT_ID, 0x3f, 0, |wr| {
                                     wr.start_array(&TLVTag::Context(AttrDataTag::Data as u8))?;
                                     for g in &ids {
@@ -629,18 +623,8 @@ fn run_boot(h: &HCtx, ops: &[String], start: usize, restarted: bool, lines: &Ref
                                 .await
                             }
                             "bind" => {
-                                // Binding (0x1E) Binding (0) on endpoint 1: the entries of this fabric + a node target <v>
-                                let v = num(&w, 2);
-                                let sfab = mode.fab_idx();
-                                let mut nodes: Vec<u64> = Vec::new();
-                                for i in 0..bindings.len() {
-                                    if let Some(e) = bindings.get(i) {
-                                        if e.fab_idx.get() == sfab {
-                                            nodes.push(e.node.unwrap_or(0));
-                                        }
-                                    }
-                                }
-                                nodes.push(v);
+                                // Binding (0x1E) Binding (0) on endpoint 1: this fabric's list becomes [node target <v>]
+                                let nodes: Vec<u64> = vec![num(&w, 2)];
                                 write_attr!(exchange, EXT_ENDPOINT, 0x1e, 0, |wr| {
                                     wr.start_array(&TLVTag::Context(AttrDataTag::Data as u8))?;
                                     for n in &nodes {
@@ -706,6 +690,8 @@ fn run_boot(h: &HCtx, ops: &[String], start: usize, restarted: bool, lines: &Ref
                                             SubscribeOutcome::Established(_) => break,
                                         }
                                     }
+                                    // the server enters (and persists) the subscription right after its response
+                                    Timer::after(Duration::from_millis(200)).await;
                                     Ok("ok".to_string())
                                 }
                                 .await
@@ -730,6 +716,9 @@ fn run_boot(h: &HCtx, ops: &[String], start: usize, restarted: bool, lines: &Ref
             };
             let status = if status == "rej" && h.kv.0.borrow().failed_calls != faults_before { "NoSpace".to_string() } else { status };
             let slow = w[0] != "tick" && crate::simnet::now_ms() - t_op > 900;
+            // let the tasks the op has woken run (the subscription reporter drops the subscriptions of a
+            // fabric that is gone and purges their persisted records) before the state is dumped
+            Timer::after(Duration::from_millis(5)).await;
             if !slow {
                 lines.borrow_mut().push((op, format!("{} | {}", status, dump())));
             }
